@@ -62,6 +62,9 @@ pub enum Op {
     FromVec { dst: usize, vals: Vec<MVal> },
     /// script literal `[a, b, c]`
     Lit3 { dst: usize, vals: Vec<MVal> },
+    /// script `if c { [a, b] } else { [b, a] }` (shape 0) or `if c { let t = [a, b]; return t; } [b, a]`
+    /// (shape 1): two creation sites for one element type, only one of them executed
+    BranchLit { dst: usize, c: bool, vals: Vec<MVal>, shape: u8 },
     /// script literal `[a, b, c, a, b, c, a, b, c]` (crosses two growth boundaries)
     Lit9 { dst: usize, vals: Vec<MVal> },
     CloneH { src: usize, dst: usize },
@@ -157,6 +160,12 @@ impl SeqModel {
             }
             Op::FromVec { dst, vals } | Op::Lit3 { dst, vals } => {
                 let id = self.heap.new_list(vals.clone());
+                self.slots[*dst] = Some(id);
+                Obs::Unit
+            }
+            Op::BranchLit { dst, c, vals, .. } => {
+                let v = if *c { vec![vals[0].clone(), vals[1].clone()] } else { vec![vals[1].clone(), vals[0].clone()] };
+                let id = self.heap.new_list(v);
                 self.slots[*dst] = Some(id);
                 Obs::Unit
             }
